@@ -2,13 +2,16 @@ package main
 
 import (
 	"fmt"
+	"math/rand"
 	"sort"
 	"strconv"
 	"strings"
 	"sync"
+	"sync/atomic"
 	"time"
 
 	"go.dedis.ch/onet/v3"
+	"go.dedis.ch/onet/v3/network"
 	"onetverif/harness/fix"
 	"onetverif/harness/h"
 )
@@ -22,6 +25,7 @@ import (
 var (
 	c01sendOnce sync.Once
 	c01sendCl   *fix.Cluster
+	c01sendN    int64
 )
 
 func c01send(c *h.Ctx, cs *h.Case) {
@@ -47,7 +51,20 @@ func c01send(c *h.Ctx, cs *h.Case) {
 			parent = append(parent, p)
 			member = append(member, i)
 		}
-		tree, nodes = fix.BuildTree(cl.Roster, parent, member)
+		// every case gets its own roster order, hence its own roster id and tree id: the cluster is
+		// shared between cases, and two trees of different shape can have the same TreeID (known
+		// finding of C13), in which case a server would keep the tree it learnt first
+		perm := rand.New(rand.NewSource(c.Seed*1000003 + atomic.AddInt64(&c01sendN, 1))).Perm(len(cl.Roster.List))
+		var sis []*network.ServerIdentity
+		pos := map[int]int{}
+		for i, j := range perm {
+			sis = append(sis, cl.Roster.List[j])
+			pos[j] = i
+		}
+		for i := range member {
+			member[i] = pos[i]
+		}
+		tree, nodes = fix.BuildTree(onet.NewRoster(sis), parent, member)
 		pi, err := cl.L.CreateProtocol(fix.ProtoName, tree)
 		if err != nil {
 			cs.Fail("setup", err.Error())
